@@ -596,6 +596,9 @@ impl<Db: KvDatabase> CurrentBatch<Db> {
         // after commit actions
         for mut logical_batch in to_commit_logical_batches {
             if shutting_down.load(Ordering::SeqCst).not() {
+                #[cfg(feature = "verif")]
+                crate::verif::event("wb_ac_sent", logical_batch.epoch.0, 0);
+
                 after_commit_sender
                     .send(AfterCommitTask { write_buffer: logical_batch })
                     .unwrap();
@@ -721,6 +724,9 @@ impl<Db: KvDatabase> WriteBehind<Db> {
 
     /// Submits a write buffer to be processed by the background writer.
     pub fn submit_write_batch(&self, write_buffer: WriteBatch<Db>) {
+        #[cfg(feature = "verif")]
+        crate::verif::event("wb_submit", write_buffer.epoch.0, 0);
+
         let write_task = SerializeTask { write_buffer };
 
         self.serialize_sender.as_ref().unwrap().send(write_task).unwrap();
@@ -732,15 +738,25 @@ impl<Db: KvDatabase> WriteBehind<Db> {
         pool: &WriteBufferPool<Db>,
     ) {
         while let Ok(mut task) = receiver.recv() {
+            #[cfg(feature = "verif")]
+            crate::verif::thread_point("wb_ac_recv");
+
             let epoch = task.write_buffer.epoch();
 
             if shutting_down.load(Ordering::SeqCst) {
                 task.write_buffer.active = false;
+
+                #[cfg(feature = "verif")]
+                crate::verif::event("wb_ac_done", epoch.0, 1);
+
                 continue;
             }
 
             task.write_buffer.after_commit(epoch);
             pool.return_buffer(task.write_buffer);
+
+            #[cfg(feature = "verif")]
+            crate::verif::event("wb_ac_done", epoch.0, 0);
         }
     }
 
@@ -750,8 +766,14 @@ impl<Db: KvDatabase> WriteBehind<Db> {
         db: &Db,
     ) {
         while let Ok(task) = receiver.recv() {
+            #[cfg(feature = "verif")]
+            crate::verif::thread_point("wb_ser_recv");
+
             let mut serialization_buffer = db.serialization_buffer();
             task.write_buffer.write_to_db(&mut serialization_buffer);
+
+            #[cfg(feature = "verif")]
+            let verif_epoch = task.write_buffer.epoch.0;
 
             sender
                 .send(WriteTask {
@@ -759,6 +781,9 @@ impl<Db: KvDatabase> WriteBehind<Db> {
                     serialize_buffer: serialization_buffer,
                 })
                 .unwrap();
+
+            #[cfg(feature = "verif")]
+            crate::verif::event("wb_serialized", verif_epoch, 0);
         }
     }
 
@@ -777,6 +802,12 @@ impl<Db: KvDatabase> WriteBehind<Db> {
         };
 
         while let Ok(task) = receiver.recv() {
+            #[cfg(feature = "verif")]
+            crate::verif::thread_point("wb_commit_recv");
+
+            #[cfg(feature = "verif")]
+            let verif_epoch = task.write_buffer.epoch.0;
+
             holdback_queues.push(task);
 
             Self::process_pending_commits(
@@ -786,6 +817,9 @@ impl<Db: KvDatabase> WriteBehind<Db> {
                 shutting_down,
                 db,
             );
+
+            #[cfg(feature = "verif")]
+            crate::verif::event("wb_commit_processed", verif_epoch, 0);
         }
 
         // Process remaining commits
@@ -840,6 +874,9 @@ impl<Db: KvDatabase> WriteBehind<Db> {
 
 impl<Db: KvDatabase> Drop for WriteBehind<Db> {
     fn drop(&mut self) {
+        #[cfg(feature = "verif")]
+        crate::verif::event("wb_shutdown_begin", 0, 0);
+
         self.shutting_down.store(true, Ordering::SeqCst);
 
         // close serialize sender
@@ -906,6 +943,9 @@ impl<Db: KvDatabase> WriteBufferPool<Db> {
 
     pub fn get_buffer(&self) -> WriteBatch<Db> {
         let curr_epoch = self.epoch.fetch_add(1, Ordering::SeqCst);
+
+        #[cfg(feature = "verif")]
+        crate::verif::event("wb_created", curr_epoch, 0);
         let curr_pool = self.pool.get_or(|| RefCell::new(Vec::new()));
 
         let mut pool = curr_pool.borrow_mut();
